@@ -83,6 +83,12 @@ fn scenario(root: &Path, folder: &str, kind: usize) -> Result<(), String> {
         6 => { write(&file, "export const nothing = 1;\n"); ("modify file: last literal removed", vec![(SourceEventKind::CreateOrModify(file.clone()), ChangedFileKind::JavaScriptSourceFile)]) }
         7 => { write(&file, ""); ("modify file: emptied", vec![(SourceEventKind::CreateOrModify(file.clone()), ChangedFileKind::JavaScriptSourceFile)]) }
         8 => { write(&file, &component("Legacy2", "world")); ("modify file: literal replaced by one for another field", vec![(SourceEventKind::CreateOrModify(file.clone()), ChangedFileKind::JavaScriptSourceFile)]) }
+        // the schema is edited in place / saved atomically (written to a temporary file that is
+        // renamed onto the schema path - what many editors do): hello becomes an Int
+        10 => { write(&root.join("schema.graphql"), "type Query {\n  hello: Int\n  world: String\n}\n");
+                ("schema modified in place", vec![(SourceEventKind::CreateOrModify(root.join("schema.graphql")), ChangedFileKind::Schema)]) }
+        11 => { let tmp = root.join("schema.graphql.tmp"); write(&tmp, "type Query {\n  hello: Int\n  world: String\n}\n"); fs::rename(&tmp, root.join("schema.graphql")).unwrap();
+                ("schema saved atomically (temporary file renamed onto it)", vec![(SourceEventKind::Rename((tmp, root.join("schema.graphql"))), ChangedFileKind::Schema)]) }
         // a file without a literal is created, then gets one (two events in one batch)
         _ => { let f = dir.join("Late.ts"); write(&f, "export const later = 1;\n"); let e1 = (SourceEventKind::CreateOrModify(f.clone()), ChangedFileKind::JavaScriptSourceFile);
                write(&f, &component("Late", "world")); ("create file without a literal, then add one", vec![e1, (SourceEventKind::CreateOrModify(f), ChangedFileKind::JavaScriptSourceFile)]) }
@@ -97,7 +103,11 @@ fn scenario(root: &Path, folder: &str, kind: usize) -> Result<(), String> {
     if watch.0 != fresh.0 {
         return Err(format!("{what} in folder {folder:?}: diagnostics differ: watch {:?} / fresh {:?}", watch.0, fresh.0));
     }
-    if watch.1 != fresh.1 {
+    // (a failing compile leaves the artifact directory as it was - C17 - so artifacts are
+    // compared only when the compile succeeds)
+    if watch.0.is_empty() && watch.1 != fresh.1 {
+        let wrong: Vec<&String> = watch.1.iter().filter(|(k, v)| fresh.1.get(*k).is_some_and(|w| w != *v)).map(|(k, _)| k).collect();
+        if !wrong.is_empty() { return Err(format!("{what} in folder {folder:?}: artifacts differ in CONTENT from a fresh batch compile: {wrong:?}")); }
         let extra: Vec<&String> = watch.1.keys().filter(|k| !fresh.1.contains_key(*k)).collect();
         let missing: Vec<&String> = fresh.1.keys().filter(|k| !watch.1.contains_key(*k)).collect();
         return Err(format!("{what} in folder {folder:?}: artifacts differ from a fresh batch compile: stale {extra:?} missing {missing:?}"));
@@ -110,7 +120,7 @@ fn main() {
     let root = if root.is_absolute() { root } else { std::env::current_dir().unwrap().join(root) };
     let mut n = 0;
     for folder in ["pages_old", "pages.old", "api.v2", "a"] {
-        for kind in 0..10 {
+        for kind in 0..13 {
             n += 1;
             if let Err(m) = scenario(&root, folder, kind) {
                 println!("DIFFERENT: {m}");
